@@ -681,3 +681,4 @@ _add_v("C13", "expr")                                 # `{.., rest..}` rebuilds 
 _add_v("C18", "object_bind", "list_bind")             # a missing property is reported at the property name, a shape error at the pattern
 _add_v("C15", "eq")                                   # equal byte sequences are `==` (bytes, not decoded text)
 _add_v("C19", "object_bind", "eq")                    # destructuring and `==` walk the ordered map, never a hash container (which error is reported first is a function of the program)
+_add_v("C19", "main_report")                           # the "expected ..." list of a syntax error is printed in the parser's order (no hash container in between)
